@@ -513,6 +513,26 @@ Definition ord_step_ok (s : ord_step) : bool :=
   ofile_eqb (os_after s) (ord_append (os_before s) (os_seq s))
   || ofile_eqb (os_after s) (OFile (os_msgs s) 0).
 
+(* ---------- continuities/index.json: default-thread recovery (find_latest_continuity_for_workspace) ----------
+   the continuity_created frames of the whole log, in log order: (timestamp_ms, thread id, workspace key) *)
+Definition created := (N * N * N)%type.
+Definition cr_ts (c : created) : N := fst (fst c).
+Definition cr_id (c : created) : N := snd (fst c).
+Definition cr_ws (c : created) : N := snd c.
+(* the most recently created thread of the workspace; on equal timestamps the earlier frame stays *)
+Fixpoint recover_default_from (ws : N) (best : option (N * N)) (cs : list created) : option N :=
+  match cs with
+  | [] => option_map snd best
+  | c :: r =>
+    if cr_ws c =? ws
+    then recover_default_from ws (match best with
+                                  | Some (ts, id) => if cr_ts c <=? ts then Some (ts, id) else Some (cr_ts c, cr_id c)
+                                  | None => Some (cr_ts c, cr_id c)
+                                  end) r
+    else recover_default_from ws best r
+  end.
+Definition recover_default (ws : N) (cs : list created) : option N := recover_default_from ws None cs.
+
 (* ---------- correspondence cases ---------- *)
 Inductive query :=
 | QReplay
@@ -592,8 +612,10 @@ Record case := {
   c_truth : list N;           (* observed with continuity_streams/ removed *)
   c_fast : list N;            (* observed with the caches as found *)
   c_ord : list ord_step;      (* observed write steps of the ordinal index in this history (first case of a history only) *)
-  c_comp : option (option (list rline))   (* Some = the checkpoint sidecar as found, for QLatestCkpt cases where nothing can
+  c_comp : option (option (list rline));  (* Some = the checkpoint sidecar as found, for QLatestCkpt cases where nothing can
                                              rebuild the caches before the look-up; None = not compared *)
+  c_recover : option (N * list created * option N)   (* a default-thread recovery observed after the loss of index.json:
+                                             workspace, continuity_created frames of the log, what ensure_default returned *)
 }.
 
 Definition case_full (c : case) : sfile := option_map (map (resolve_line (c_log c))) (c_full c).
@@ -613,6 +635,10 @@ Definition check_case (k : consts) (c : case) : bool :=
        lN_eqb (enc_opt (status_ckpt_fast (k_ckpt_events k) (k_ckpt_bytes k)
                           (option_map (map (resolve_line (c_log c))) comp) full (c_log c))) (c_fast c)
      | _, _, _ => true
+     end
+  && match c_recover c with
+     | Some (ws, cs, got) => option_eqb N.eqb (recover_default ws cs) got
+     | None => true
      end.
 
 Definition model_obs (k : consts) (c : case) : list N :=
